@@ -922,7 +922,7 @@ func c20Bucket(n int) string {
 func TestVerifC20(t *testing.T) {
 	run := vlib.Start(t, "C20")
 	defer run.Finish()
-	run.SetRule("case = generated source tree (1-7 directories of depth 0-5, 0-3 scanned .go files per directory, 0-6 annotated functions per file with 1-3 directives each mixed with other directives/prose/block comments, plus look-alikes: annotations in _test.go and non-.go files, on var/const/type/grouped/field/interface-method declarations, on function literals, inside bodies, in block comments, in raw strings, detached by a blank line, trailing the previous line, after a function, ordinary comments mentioning the directive, other go: directives), written to disk; FindRedirects runs 20 times inside it; non-trivial = expected table has >= 2 entries AND the tree contains >= 1 look-alike AND >= 2 scanned files; distinct = fingerprint of every file path and content")
+	run.SetRule("case = generated source tree (1-7 directories of depth 0-5, 0-3 scanned .go files per directory, 0-6 annotated functions per file with 1-3 directives each mixed with other directives/prose/block comments, plus look-alikes: annotations in _test.go and non-.go files, on var/const/type/grouped/field/interface-method declarations, on function literals, inside bodies, in block comments, in raw strings, detached by a blank line, trailing the previous line, after a function, ordinary comments mentioning the directive, other go: directives), written to disk; FindRedirects runs 20 times inside it; then FindRedirects + CompleteRedirects run twice from scratch against a synthetic ELF64 image (random section order and padding, .goredirectstbl with 0-3 spare entries, symbol table in random order with every source/destination symbol at a distinct address plus look-alike names) and the file is compared byte for byte with the expected image; non-trivial = expected table has >= 2 entries AND the tree contains >= 1 look-alike AND >= 2 scanned files; distinct = fingerprint of every file path and content")
 	run.Assume("the process changes its working directory into the tree, as kbuild is started inside the kernel directory; FindRedirects is driven on a fresh Context per repetition")
 	run.Assume("generated files are checked to parse (go/parser, syntax only) before the code under test sees them, because a parse failure makes FindRedirects exit the process; the parser is not used by the oracle")
 	run.Assume("expected destination = \"" + c20Prefix + "\" + \"/<dir>\" for every directory component + \".\" + function name, i.e. the import path of the directory, not the package clause")
@@ -998,6 +998,10 @@ func TestVerifC20(t *testing.T) {
 			return
 		}
 		orders := c20Check(c, run, "generated tree", g.expect, tables, g.decoys)
+		if !c.Failed() {
+			// the table as it ends up in the image (skipped when the table itself is already wrong)
+			c20ImagePhase(c, run, root, filepath.Dir(root), c.R.Fork(0xE1F))
+		}
 
 		// evidence
 		run.Count("trees", 1)
